@@ -225,3 +225,54 @@ impl<F: Future + Sized> VxFutureExt for F {
     #[verifier::external_body]
     fn map<U, G: FnOnce(Self::Output) -> U>(self, g: G) -> (r: MapFut<Self, U>) { unimplemented!() }
 }
+
+// ---------------- select! (R8), control channel ----------------
+/// `select!` over 2 / 3 futures: which branch is taken is arbitrary (any scheduler); taking a branch
+/// means that branch's future completed with the given value.
+pub enum VxSel2<A, B> { A(A), B(B) }
+pub enum VxSel3<A, B, C> { A(A), B(B), C(C) }
+/// the future `f` has run to completion (for a timer-built future: its completion condition holds)
+pub uninterp spec fn vx_done<F>(f: F) -> bool;
+#[verifier::external_body]
+pub async fn vx_select2<A: Future, B: Future>(a: A, b: B) -> (r: VxSel2<A::Output, B::Output>)
+    ensures r is A ==> vx_done(a), r is B ==> vx_done(b)
+{ unimplemented!() }
+#[verifier::external_body]
+pub async fn vx_select3<A: Future, B: Future, C: Future>(a: A, b: B, c: C) -> (r: VxSel3<A::Output, B::Output, C::Output>)
+    ensures r is A ==> vx_done(a), r is B ==> vx_done(b), r is C ==> vx_done(c)
+{ unimplemented!() }
+pub mod mpsc {
+    use super::*;
+    verus!{
+    #[verifier::external_body]
+    #[verifier::reject_recursive_types(T)]
+    pub struct Receiver<T> { _p: core::marker::PhantomData<T> }
+    impl<T> Receiver<T> {
+        /// StreamExt::select_next_some: the next control request (any request, at any time)
+        #[verifier::external_body]
+        pub fn select_next_some(&mut self) -> (f: BoxFuture<'_, T>) { unimplemented!() }
+    }
+    }
+}
+pub mod oneshot {
+    use super::*;
+    verus!{
+    #[verifier::external_body]
+    #[verifier::reject_recursive_types(T)]
+    pub struct Sender<T> { _p: core::marker::PhantomData<T> }
+    impl<T> Sender<T> {
+        #[verifier::external_body]
+        pub fn send(self, t: T) -> (r: Result<(), T>) { unimplemented!() }
+    }
+    }
+}
+/// polling a pinned, fused future through `&mut` (what select! does with a named future)
+#[verifier::external_body]
+#[verifier::reject_recursive_types(F)]
+pub struct MutFut<'a, F> { _p: core::marker::PhantomData<&'a mut F> }
+#[verifier::external]
+impl<'a, F: Future> Future for MutFut<'a, F> { type Output = F::Output; fn poll(self: Pin<&mut Self>, _cx: &mut TaskContext<'_>) -> Poll<F::Output> { unimplemented!() } }
+#[verifier::external_body]
+pub fn vx_by_ref<'a, F: Future>(f: &'a mut F) -> (r: MutFut<'a, F>)
+    ensures vx_done(r) ==> vx_done(*old(f)), cond_of(r) == cond_of(*old(f)), *final(f) == *old(f)
+{ unimplemented!() }
